@@ -132,9 +132,19 @@ class PrefixHooks(libtab.SAConc, QHooks):
     prim_chdir = _ok0
     prim_umask = prim_sig_pipeignore = prim_checkhome = prim_bouncexf = _n
 
+    dry_run = False        # the -n option: say what would be done
+
+    def materialize(self, E, path):
+        if path in ('G:subgetoptdone', 'G:sgetoptdone'):
+            return fs(-1)           # "no more options": SUBGETOPTDONE
+        return TOP
+
     def prim_getopt(self, E, x, args):
-        # no options: the operands start behind the program name (getopt and optind under whichever names sgetopt.h gives them)
-        return [Outcome(ret=fs(-1), sets={'G:optind': fs(1), 'E:optind': fs(1), 'G:subgetoptind': fs(1), 'G:sgetoptind': fs(1)})]
+        # the operands start behind the program name and the options (getopt and optind under whichever names sgetopt.h gives them)
+        if self.dry_run and not g1(E, '$optseen', 0):
+            return [Outcome(ret=fs(ord('n')), sets={'$optseen': fs(1)})]
+        k = 2 if self.dry_run else 1
+        return [Outcome(ret=fs(-1), sets={'G:optind': fs(k), 'E:optind': fs(k), 'G:subgetoptind': fs(k), 'G:sgetoptind': fs(k)})]
 
     prim_sgetoptmine = prim_subgetopt = prim_getopt
 
@@ -172,7 +182,7 @@ class PrefixHooks(libtab.SAConc, QHooks):
     def _die(self, E, x, args):
         return 'noreturn'
 
-    prim_temp_nomem = prim_usage = prim_strerr_die5x = prim_strerr_die1x = _die
+    prim_temp_nomem = prim_usage = prim_strerr_die5x = prim_strerr_die1x = prim_strerr_die = _die
 
 
 def main_prefix_sites(db, rep, prog):
@@ -184,7 +194,7 @@ def main_prefix_sites(db, rep, prog):
         av = list(argv)
         av[8] = sender
         H = PrefixHooks()
-        eng = Engine(db, prog, H, max_states=400000)
+        eng = Engine(db, prog, H, max_states=60000)
         fid = eng.frame_id(mainf)
         # getopt consumed "qmail-local": the operands start at argv[1] ("--" is an operand separator getopt would have eaten; leave it out)
         ops = [av[0]] + av[2:]
@@ -217,6 +227,178 @@ def main_prefix_sites(db, rep, prog):
     for k in ('newline-scrub-covers-the-whole-dtline', 'newline-scrub-covers-the-whole-rpline', 'From_-line-maps-blank,tab,newline-of-the-sender-to-a-dash',
               'search-key=lower-cased-extension-with-dots-as-colons', 'environment-lines-are-the-scrubbed-lines'):
         out[k] = (k not in bad, 'qmail-local.c:main', bad[k][0] if k in bad else '%d scenarios' % n, bad[k][1] if k in bad else [])
+    return out
+
+
+class InterpHooks(PrefixHooks):
+    """the whole of qmail-local main() on concrete arguments and a concrete .qmail text: which deliveries are made, in which order, with which arguments"""
+    def __init__(self, qmail, xbit, found=True, flag99_after=None):
+        super().__init__()
+        self.qmail, self.xbit, self.found, self.flag99_after = qmail, xbit, found, flag99_after
+        self.runs = []
+
+    def ev(self, E, e):
+        E.set('$ev', fs(tuple(g1(E, '$ev', ())) + (e,)))
+
+    def prim_qmesearch(self, E, x, args):
+        fdp, cutp = libtab._one(args[0]), libtab._one(args[1])
+        if not (isinstance(fdp, tuple) and isinstance(cutp, tuple)):
+            raise AnalysisBroken('main: qmesearch() is not handed the addresses of the descriptor and the forward-only flag')
+        return [Outcome(ret=TOP, sets={fdp[1]: fs(5 if self.found else -1), cutp[1]: fs(1 if (self.xbit and self.found) else 0)})]
+
+    def prim_qmeox(self, E, x, args):
+        return [Outcome(ret=fs(-1))]
+
+    def prim_slurpclose(self, E, x, args):
+        sa = libtab._one(args[1])
+        return self._put(E, x, [fs(sa)], self.qmail, False)[:1] and [Outcome(ret=fs(0), sets=self._put(E, x, [fs(sa)], self.qmail, False)[0].sets)]
+
+    def prim_calloc(self, E, x, args):
+        n = libtab._one(args[0])
+        return [Outcome(ret=fs(('&', 'RECIPS[0]')), sets={'$ncalloc': fs(n)})]
+
+    def _deliver(self, E, x, args):
+        self.ev(E, (x.callee, self.cstring(E, libtab._one(args[0]))))
+        sets = {}
+        if x.callee == 'mailprogram' and self.flag99_after is not None and self.cstring(E, libtab._one(args[0])) == self.flag99_after:
+            sets['G:flag99'] = fs(1)
+        return [Outcome(ret=TOP, sets=sets)]
+
+    prim_maildir = prim_mailfile = prim_mailprogram = _deliver
+
+    def prim_mailforward(self, E, x, args):
+        from qv.esp import ptr_add
+        p = libtab._one(args[0])
+        out = []
+        for k in range(16):
+            q = ptr_add(p, k) if isinstance(p, tuple) else None
+            v = libtab._one(E.get(q[1])) if q else None
+            if v == 0:
+                break
+            out.append(self.cstring(E, v) if isinstance(v, tuple) else None)
+            if v is None:
+                break
+        self.ev(E, ('mailforward', tuple(out), libtab._one(E.get('$ncalloc'))))
+        return [Outcome(ret=TOP)]
+
+    def prim_sayit(self, E, x, args):
+        n = libtab._one(args[2])
+        self.ev(E, ('sayit', self.cstring(E, libtab._one(args[0])), self.mem(E, libtab._one(args[1]), n) if isinstance(n, int) else None))
+        return [Outcome(ret=TOP)]
+
+    def prim_count_print(self, E, x, args):
+        return [Outcome(ret=TOP)]
+
+    def prim__exit(self, E, x, args):
+        self.runs.append((tuple(g1(E, '$ev', ())), ('exit', libtab._one(args[0])), E.trace.list()))
+        return 'noreturn'
+
+    def _die1(self, E, x, args):
+        self.runs.append((tuple(g1(E, '$ev', ())), ('die', libtab._one(args[0])), E.trace.list()))
+        return 'noreturn'
+
+    prim_strerr_die1x = prim_strerr_die5x = prim_strerr_die = _die1      # the strerr_dieNx macros end in strerr_die()
+
+    def prim_stat(self, E, x, args):
+        return [Outcome(ret=fs(-1))]
+
+
+def interp_reference(text, xbit, doit, flag99_after=None):
+    """dot-qmail(5) applied to a .qmail text: (events, end)"""
+    if not text.endswith(b'\n'):
+        text += b'\n'
+    ev, fwd = [], []
+    fonly = xbit
+    lines = text.split(b'\n')[:-1]
+    for n_, ln in enumerate(lines):
+        ln = ln.rstrip(b' \t')
+        if not ln:
+            if n_ == 0:
+                return ev, ('die', 111)
+            continue
+        c = ln[:1]
+        if c == b'#':
+            continue
+        if c in (b'.', b'/'):
+            if fonly:
+                return ev, ('die', 111)
+            kind = 'maildir' if ln.endswith(b'/') else 'mailfile'
+            ev.append((kind, ln) if doit else ('sayit', b'maildir ' if kind == 'maildir' else b'mbox ', ln))
+        elif c == b'|':
+            if fonly:
+                return ev, ('die', 111)
+            ev.append(('mailprogram', ln[1:]) if doit else ('sayit', b'program ', ln[1:]))
+            if doit and flag99_after is not None and ln[1:] == flag99_after:
+                break
+        elif c == b'+':
+            if ln[1:] == b'list':
+                fonly = True
+        else:
+            a = ln[1:] if c == b'&' else ln
+            if doit:
+                fwd.append(a)
+            else:
+                ev.append(('sayit', b'forward ', a))
+    if fwd and doit:
+        ev.append(('mailforward', tuple(fwd)))
+    return ev, ('exit', 0)
+
+
+def interp_sites(db, rep, prog):
+    mainf = prog.fn('main', 'qmail-local.c')
+    base = [b'qmail-local', b'user', b'/home/user', b'local', b'-', b'ext', b'host.example', b'sender@x', b'./Mailbox']
+    BIG = b'# c\n./Maildir/ \t\n./Mailbox\n/abs/Md/\n|prog a\n&fwd@x\nplain@y\n+list\n\n&last@z'
+    scen = [('every-kind-of-line', BIG, False, True, None), ('+list-then-file', b'+list\n./Mailbox\n', False, True, None), ('+list-then-program', b'&a@b\n+list\n|p\n', False, True, None),
+            ('x-bit-and-program', b'|prog\n', True, True, None), ('x-bit-and-file', b'&a@b\n/m/\n', True, True, None), ('x-bit-and-forward', b'&a@b\nc@d\n', True, True, None),
+            ('first-line-blank', b'\n./Mailbox\n', False, True, None), ('later-line-blank', b'./Mailbox\n \n\n/m/\n', False, True, None),
+            ('+listing-is-not-+list', b'+listing\n./Mailbox\n', False, True, None), ('program-exit-99', b'|one\n|two\n./Mailbox\n&a@b\n', False, True, b'one'),
+            ('empty-.qmail-uses-the-default-delivery', b'', True, True, None), ('comment-only', b'#only\n', False, True, None),
+            ('-n-says-what-would-be-done', BIG, False, True, None)]
+    bad = {}
+    n = 0
+    for name, text, xbit, found, f99 in scen:
+        H = InterpHooks(text, xbit, found, f99)
+        doit = not name.startswith('-n')
+        H.dry_run = not doit
+        argv_ = base if doit else base[:1] + [b'-n'] + base[1:]
+        eng = Engine(db, prog, H, max_states=60000)      # deterministic: a blow-up means an input was left undetermined
+        fid = eng.frame_id(mainf)
+        st = {'%s::%s' % (fid, mainf.params[0]): fs(len(argv_)), '%s::%s' % (fid, mainf.params[1]): fs(('&', 'ARGV[0]'))}
+        for k, a in enumerate(argv_):
+            st['ARGV[%d]' % k] = fs(('&', 'A%d[0]' % k))
+            st.update(libtab.conc_string_cells('A%d' % k, a))
+        st['ARGV[%d]' % len(argv_)] = fs(0)
+        eng.run(mainf, st)
+        rep.count_states(eng.states, eng.transitions)
+        if len(H.runs) != 1:
+            raise AnalysisBroken('qmail-local main: %d ends for the scripted .qmail %r' % (len(H.runs), text))
+        ev, end, tr = H.runs[0]
+        n += 1
+        eff = text if text else base[8] + b'\n'                      # an empty .qmail means the default delivery instruction, without forward-only
+        wev, wend = interp_reference(eff, xbit and bool(text), doit, f99)
+        gev = [tuple(e[:3]) if e[0] == 'sayit' else (e[0], e[1]) for e in ev]
+        what = '.qmail %r%s: ' % (text, ' with the x bit' if xbit else '')
+        if gev != wev or end != wend:
+            kinds = {'mailprogram': 'first-byte->action', 'maildir': 'trailing-slash-selects-maildir', 'mailfile': 'trailing-slash-selects-maildir'}
+            key = 'first-byte->action'
+            if wend == ('die', 111) or end == ('die', 111):
+                key = 'file-and-program-deliveries-refused-under-forward-only' if (xbit or b'+list' in text) else 'blank-first-line-is-refused'
+            elif [e for e in gev if e[0] in ('maildir', 'mailfile')] != [e for e in wev if e[0] in ('maildir', 'mailfile')]:
+                key = 'trailing-slash-selects-maildir'
+            elif f99:
+                key = 'loop-leaves-on-flag99'
+            elif not doit:
+                key = '-n-delivers-nothing'
+            elif [e for e in gev if e[0] == 'mailforward'] != [e for e in wev if e[0] == 'mailforward'] or 'mailforward' in [e[0] for e in gev[:-1]]:
+                key = 'mailforward-once-after-all-instructions-with-every-forward-address'
+            bad.setdefault(key, (what + 'deliveries %s, end %s; documented %s, end %s' % (gev, end, wev, wend), tr))
+        fw = [e for e in ev if e[0] == 'mailforward']
+        if fw and isinstance(fw[0][2], int) and fw[0][2] < len(fw[0][1]) + 1:
+            bad.setdefault('forward-list-fits-its-allocation', (what + '%d forward addresses and the terminator are stored in an array allocated for %d pointers' % (len(fw[0][1]), fw[0][2]), tr))
+    out = {}
+    for k in ('first-byte->action', 'trailing-slash-selects-maildir', 'file-and-program-deliveries-refused-under-forward-only', 'blank-first-line-is-refused', 'loop-leaves-on-flag99',
+              'forward-list-fits-its-allocation', '-n-delivers-nothing', 'mailforward-once-after-all-instructions-with-every-forward-address'):
+        out[k] = (k not in bad, 'qmail-local.c:main', bad[k][0] if k in bad else '%d scripted .qmail files' % n, bad[k][1] if k in bad else [])
     return out
 
 
@@ -366,58 +548,15 @@ def run(ctx):
             badq.append((oct(m_), sorted(got, key=str), sorted(want, key=str)))
     r2.check(not badq, 'writable-.qmail-refused', qe.unit + ':qmeexists',
              '(.qmail mode -> outcome, documented): %s; a group/world-writable .qmail must stop the delivery (111), a non-regular file is closed and ignored, the x bit selects forward-only' % badq[:3])
-    for callee in ('maildir', 'mailfile', 'mailprogram'):
-        for c in mainf.calls(callee):
-            g = mainf.guards(c) or []
-            blk_die = [d for d in mainf.calls(DIE) if d.args[0].const == 111 and any((cc.path() or '').startswith('L:flagforwardonly') and tt is True for cc, tt in mainf.guards(d) or [])]
-            ok = any((cc.path() or '').startswith('L:flagforwardonly') and tt is False for cc, tt in g)
-            r2.check(ok and bool(blk_die), '%s-refused-under-forward-only' % callee, c.where, '%s() not dominated by !flagforwardonly' % callee)
-    r2.expect_min(6)
+    its = interp_sites(db, rep, prog)
+    v = its['file-and-program-deliveries-refused-under-forward-only']
+    r2.check(v[0], 'file-and-program-deliveries-refused-under-forward-only', v[1], v[2], v[3])
+    r2.expect_min(4)
 
     # ---------------------------------------------------------------- 3. dispatch
     r3 = rep.rule('C13.3-dispatch-table', 'R-TABLE', 'first byte of an instruction -> action: # nothing; . / maildir if the line ends in / else mbox; | program; + list; & and everything else forward; blank first line -> 111')
-    sw = None
-    for b in mainf.blocks.values():
-        if b.term and b.term.get('k') == 'switch' and b.cond is not None and 'cmds.s[i]' in b.cond.src():
-            if any(mainf.blocks[s].label and mainf.blocks[s].label.get('lo') == ord('|') for s in b.succs if s is not None):
-                # the delivering switch is the one from which maildir() is reachable before the counting one ends
-                if any(c for c in mainf.calls('maildir') if mainf.can_reach(b.id, mainf.pos[c.id][0])):
-                    sw = b
-    if sw is None:
-        raise AnalysisBroken('main: instruction dispatch switch not found')
-    joins = {mainf.pos[x.id][0] for x in mainf.all_x() if x.k == 'asg' and x.op == '=' and (x.args[0].var or '').startswith('L:i') and x.args[1].src() == '(j + 1)'}
-    table = {}
-    actions = ('maildir', 'mailfile', 'mailprogram', 'sayit') + DIE
-    for s in sw.succs:
-        if s is None:
-            continue
-        lab = mainf.blocks[s].label
-        key = chr(lab['lo']) if lab and lab.get('k') == 'case' and lab.get('lo') is not None and lab['lo'] > 0 else ('NUL' if lab and lab.get('k') == 'case' else 'default')
-        seen, work, acts = set(), [s], set()
-        while work:
-            b = work.pop()
-            if b in seen or b is None or b in joins:
-                continue
-            seen.add(b)
-            for n in mainf.blocks[b].elems:
-                if n['k'] == 'call' and n.get('f') and n['f'][2:] in actions:
-                    acts.add('strerr_die1x' if n['f'][2:] in DIE else n['f'][2:])
-                if n['k'] == 'asg':
-                    xx = mainf.x(n['i'])
-                    if 'recips[' in xx.args[0].src():
-                        acts.add('forward')
-                    if (xx.args[0].var or '').startswith('L:flagforwardonly'):
-                        acts.add('list')
-            work.extend(mainf.blocks[b].succs)
-        table[key] = acts - {'sayit'}
-    want = {'#': set(), '.': {'maildir', 'mailfile', 'strerr_die1x'}, '/': {'maildir', 'mailfile', 'strerr_die1x'}, '|': {'mailprogram', 'strerr_die1x'},
-            '+': {'list'}, '&': {'forward'}, 'default': {'forward'}, 'NUL': {'strerr_die1x'}}
-    r3.check(table == want, 'first-byte->action', sw.cond.where, 'extracted %s; documented %s' % ({k: sorted(v) for k, v in table.items()}, {k: sorted(v) for k, v in want.items()}))
-    md = mainf.calls('maildir')
-    okm = bool(md) and any(c.strip().k == 'bin' and c.strip().op == '==' and c.strip().args[1].const == ord('/') and 'k - 1' in c.strip().args[0].src() and t is True for c, t in mainf.guards(md[0]) or [])
-    mfc = mainf.calls('mailfile')
-    okf = bool(mfc) and any(c.strip().k == 'bin' and c.strip().op == '==' and c.strip().args[1].const == ord('/') and t is False for c, t in mainf.guards(mfc[0]) or [])
-    r3.check(okm and okf, 'trailing-slash-selects-maildir', mainf.unit + ':main', 'maildir iff the instruction\'s last byte is "/"')
+    for k_ in ('first-byte->action', 'trailing-slash-selects-maildir', 'blank-first-line-is-refused', 'forward-list-fits-its-allocation'):
+        r3.check(its[k_][0], k_, its[k_][1], its[k_][2], its[k_][3])
     r3.expect_min(2)
 
     # ---------------------------------------------------------------- 4. program status
@@ -445,19 +584,14 @@ def run(ctx):
         if out != want_o:
             bad.append((('sig%d' % (w & 127)) if crashed else code, out, want_o))
     r4.check(len(SH.table) == 260 and not bad, 'program-status-table', mp.unit + ':mailprogram', '%d cells; deviations %s' % (len(SH.table), bad[:5]))
-    brk = [b for b in mainf.blocks.values() if b.cond is not None and b.cond.path() == 'G:flag99']
-    r4.check(bool(brk), 'loop-leaves-on-flag99', mainf.unit + ':main', 'the instruction loop does not test flag99')
+    v = its['loop-leaves-on-flag99']
+    r4.check(v[0], 'loop-leaves-on-flag99', v[1], v[2], v[3])
     rep.exhaustive_rules.append('C13.4-program-status-table')
 
     # ---------------------------------------------------------------- 5. forward last
     r5 = rep.rule('C13.5-forward-last', 'R-ORDER', 'mailforward runs once after the instruction loop, only with recipients and when delivering; a D result exits 100, anything else 111')
-    fw = mainf.calls('mailforward')
-    ok = len(fw) == 1 and not mainf.can_reach(mainf.pos[fw[0].id][0], sw.id)
-    if ok:
-        cv = consistent_values(mainf, fw[0], (0, 1, 2, 7), key=lambda v: v.strip().path() or v.strip().src())
-        nf = [k for k in cv if k.startswith('L:numforward')]
-        ok = bool(nf) and all(0 not in cv[k] and {1, 2, 7} <= cv[k] for k in nf) and 0 not in cv.get('G:flagdoit', {0}) and 1 in cv.get('G:flagdoit', ())
-    r5.check(ok, 'mailforward-after-the-loop-under-numforward&&flagdoit', mainf.unit + ':main', '')
+    for k_ in ('mailforward-once-after-all-instructions-with-every-forward-address', '-n-delivers-nothing'):
+        r5.check(its[k_][0], k_, its[k_][1], its[k_][2], its[k_][3])
     mfw = prog.fn('mailforward', 'qmail-local.c')
     die = mfw.calls(DIE)
     okd = False
